@@ -172,7 +172,7 @@ def run(rng, res, tier, shard, nshards):
         via = rng.random() < 0.1
         first, label = check_program(f2, root, mclass.split('+')[0], where, res, via_graph=via)
         res.case(digest(f2) if label == 'erroneous' else None)
-        if res.evaluations % 997 == 1 and label == 'erroneous':
+        if len(res.samples) < 3 and label == 'erroneous':
             res.sample({'mutation': mclass, 'in_file': where, 'files': {n: t[:400] for n, t in f2.items()}})
         if first:
             res.violation(first[0], first[1], {'files': f2, 'root': root, 'mutation': mclass, 'via_graph': via})
